@@ -46,7 +46,7 @@ HDR = core.HDR.replace('Import Base Spec.', 'Import Base Spec Sem.')
 
 def run(tier, seed):
     t0 = time.time(); idx, info = flow.prepare()
-    files, notes, cover = f1.build(idx, CFGS, 'hid', spec, per_file=40)
+    files, notes, cover = f1.build(idx, CFGS, 'hid', spec, per_file=40, pid='C08')
     per_fn = 3 if tier == 'quick' else 30
     return f1.run('C08', tier, seed, idx, info, t0, files, notes, cover, HDR, per_fn,
         'one lemma per function with a Vec3A/Mat3A/Affine3A/BVec3A parameter (sse2, core-simd), all Ops: the result with hidden lanes erased is the same for two independent choices of every hidden input lane; correspondence: %d random calls per function with lattice/raw-bit hidden lanes (inf, NaN payloads, all-ones)' % per_fn,
